@@ -393,3 +393,11 @@ def build(ck):
 
     # ================================================================== BlockDiagonalOperator.inverse (shared with C10)
     C10.inverse_scenario(ck, BK.BlockTheory(P), oracle={'name': 'block_family'}, twice=True)
+
+    # ================================================================== the configuration the lazy inverse captures (C19)
+    # "solver settings": what Config.instance() returns at creation is the configuration built by Config(**kw) from the
+    # active one (outer settings inherited, named ones overridden) and restored on exit.  Those contracts live in the C19
+    # pack; its scenarios over furax._base.config.Config are re-run here by reference as obligations of this check.
+    from props import C19
+    ck.include(C19.build, 'C19', lambda fn: fn.startswith('furax._base.config.Config.'))
+
